@@ -373,6 +373,9 @@ func (x *Exec) storeRaw(st *State, p *Pointer, srt *Sort, t types.Type, tm *Term
 	key, ks := x.locKey(p, srt, t)
 	m := st.hget(key, ks)
 	st.hset(key, x.vc.define("h", Store(m, p.Base, tm)), p.Base)
+	if len(p.Path) == 0 && p.Base.Op == "subref" {
+		x.syncSubRef(st, p.Base, key, ks)
+	}
 }
 
 // alloc returns a fresh, non-nil reference.
